@@ -527,6 +527,9 @@ func TestVerifChanCorr(t *testing.T) {
 				var d time.Duration
 				if r.Intn(3) != 0 {
 					d = time.Duration(1+r.Intn(5000)) * time.Millisecond
+					if r.Intn(4) == 0 {
+						d = []time.Duration{1, time.Microsecond, time.Millisecond, 2 * time.Millisecond}[r.Intn(4)]
+					}
 				}
 				t0 := time.Now().UnixNano()
 				err := c.RequeueMessage(client, vfE1MsgID(id), d)
